@@ -1,7 +1,7 @@
 use crate::{
     cfg::Cfg,
     parser::{Label, ParserNode},
-    passes::{DiagnosticManager, LintError, LintPass},
+    passes::{DiagnosticLocation, DiagnosticManager, LintError, LintPass},
 };
 use uuid::Uuid;
 
@@ -31,7 +31,8 @@ impl LintPass for OverlappingFunctionCheck {
                         token: l.raw_token().clone(),
                     })
                     .collect::<Vec<_>>();
-                let label = labels.first();
+                // the labels come out of a hash set: report at the one written first
+                let label = labels.iter().min_by(|a, b| a.token.range().cmp(&b.token.range()));
 
                 if let Some(l) = label {
                     errors.push(LintError::NodeInManyFunctions(
